@@ -189,12 +189,15 @@ def get_atom_lines_from_pdb(
         if tag == 'MODEL ':
             model = int(line[6:])
             nterm_residue = 'next_residue'
+            old_residue = None
         if tag == 'TER   ':
             nterm_residue = 'next_residue'
+            old_residue = None
         if tag in tags:
             alt_conf_tag = line[16]
             residue_name = line[12: 16]
-            residue_number = line[22: 26]
+            # chain identifier, residue number and insertion code
+            residue_number = line[21: 27]
             # check if we want this residue
             if line[17: 20] in ignore_residues:
                 continue
@@ -208,6 +211,9 @@ def get_atom_lines_from_pdb(
                 if old_residue != residue_number:
                     nterm_residue = residue_number
                     old_residue = None
+            elif tag == 'ATOM  ' and nterm_residue != residue_number:
+                # left the first residue of the chain
+                nterm_residue = None
             # Identify the configuration
             # convert digits to letters
             if alt_conf_tag in '123456789':
